@@ -185,7 +185,8 @@ Lemma verify_exact : forall fx ovf a d key step chal t,
   0 < step -> step <= t ->
   verify_gen fx ovf a d key step chal t = OBool (accept_spec a d key step chal t).
 Proof.
-  intros fx ovf a d key step chal t Hk Hs Ht. unfold verify_gen, accept_spec, rfc_totp.
+  intros fx ovf a d key step chal t Hk Hs Ht.
+  unfold verify_gen, verify_core, second_counter, accept_spec, rfc_totp.
   destruct (N.eqb_spec step 0) as [E|_]; [lia|].
   pose proof (counter_pos step t Hs Ht) as Hc.
   destruct (N.eqb_spec (t / step) 0) as [E|_]; [lia|]. cbn [andb].
@@ -195,12 +196,12 @@ Proof.
   destruct (rfc_hotp a d key (t / step) =? chal); reflexivity.
 Qed.
 
-(* the pinned tree with a secret longer than the block: nothing is ever accepted *)
+(* the code before the fix with a secret longer than the block: nothing is ever accepted *)
 Lemma verify_long : forall ovf a d key step chal t,
   key_ok a key = false -> 0 < step -> step <= t ->
   verify_gen false ovf a d key step chal t = OBool false.
 Proof.
-  intros ovf a d key step chal t Hk Hs Ht. unfold verify_gen.
+  intros ovf a d key step chal t Hk Hs Ht. unfold verify_gen, verify_core, second_counter.
   destruct (N.eqb_spec step 0) as [E|_]; [lia|].
   pose proof (counter_pos step t Hs Ht) as Hc.
   destruct (N.eqb_spec (t / step) 0) as [E|_]; [lia|]. cbn [andb].
@@ -221,3 +222,28 @@ Proof.
 Qed.
 Lemma outcome_eqb_refl : forall x, outcome_eqb x x = true.
 Proof. intros [[]|]; reflexivity. Qed.
+
+(* ------------------------------------------------------------------ what agree / pcheck mean *)
+Lemma agree_iff : forall ovf a d key step secs nanos obs,
+  agree (CV ovf a d key step secs nanos obs) = true <->
+  forall chal out, In (chal, out) obs -> verify ovf a d key step chal secs = out.
+Proof.
+  intros ovf a d key step secs nanos obs. cbn [agree]. cbv zeta. rewrite forallb_forall. split.
+  - intros H chal out Hin. specialize (H _ Hin). cbn [fst snd] in H.
+    apply outcome_eqb_eq in H. exact H.
+  - intros H [chal out] Hin. cbn [fst snd]. specialize (H _ _ Hin).
+    unfold verify, verify_gen in H. rewrite H. apply outcome_eqb_refl.
+Qed.
+
+Lemma pcheck_iff : forall ovf a d key step secs nanos obs,
+  0 < step -> step <= secs ->
+  (pcheck (CV ovf a d key step secs nanos obs) = true <->
+   forall chal out, In (chal, out) obs -> out = OBool (accept_spec a d key step chal secs)).
+Proof.
+  intros ovf a d key step secs nanos obs Hs Ht. cbn [pcheck].
+  apply N.ltb_lt in Hs. apply N.leb_le in Ht. rewrite Hs, Ht. cbn [andb]. cbv zeta.
+  rewrite forallb_forall. split.
+  - intros H chal out Hin. specialize (H _ Hin). cbn [fst snd] in H.
+    apply outcome_eqb_eq in H. exact H.
+  - intros H [chal out] Hin. cbn [fst snd]. rewrite (H _ _ Hin). apply outcome_eqb_refl.
+Qed.
